@@ -73,6 +73,19 @@ package decimal
 //@   ensures[len,C08] len(z.mant) <= old(len(z.mant))
 //@   ensures[shape,C08,assumed] z.form == finite ==> mantok(z) && 19*len(z.mant) < z.prec + 19 && (19*len(z.mant) > z.prec ==> z.mant[0] % p10(19*len(z.mant) - z.prec) == 0)
 //@   ensures[rounded,C01,C02,assumed] old(z.form) == finite ==> rounded(z, old(V(z.mant)), old(len(z.mant)), old(z.exp), sbit != 0)
+//@   hint[ret@split] V_split(old(z.mant), 0, m-n, m)
+//@   hint[ret@split] V_low(old(z.mant), m-n, m)
+//@   hint[ret@split] m > n ==> Vdef(old(z.mant), 0, m-n-1)
+//@   hint[ret@split] m > n ==> Pdef(m-n-1)
+//@   hint[ret@split] V_zero_iff(old(z.mant), 0, r/19)
+//@   hint[ret@split] V_bounds(old(z.mant), 0, m-n)
+//@   hint[ret@split] V_bounds(old(z.mant), m-n, m)
+//@   hint[ret@split] V_bounds(old(z.mant), 0, r/19)
+//@   hint[ret@split] Pdef(n-1)
+//@   hint[ret@split] P_add(m-n, n)
+//@   hint[ret@split] V_low(z.mant, 0, n)
+//@   hint[ret@split] V_bounds(z.mant, 0, n)
+//@   hint[ret@split] V_top(z.mant, 0, n)
 //@   tags safety C04
 //@   tags support C08
 
@@ -140,6 +153,7 @@ package decimal
 //@   (ex <= ey ==> V(x.mant) == V(y.mant)*p10(ey-ex)) && (ex > ey ==> V(x.mant)*p10(ex-ey) == V(y.mant))
 
 //@ func (z *Decimal) usub(x, y *Decimal)
+//@   nomerge
 //@   requires[wf]    z != nil && z.prec >= 1 && z.mode <= 5 && finop_long(x) && finop_long(y) && sep(z, x) && sep(z, y) && gapok(x, y)
 //@   requires[order] absgt(x, y) || abseq(x, y)
 //@   modifies z.acc, z.exp, z.form, z.neg, z.mant, memcap(z.mant)
@@ -173,6 +187,8 @@ package decimal
 //@   requires[wf]    z != nil && z.prec >= 1 && z.mode <= 5 && finop(x) && finop(y) && sep(z, x) && sep(z, y) && len(x.mant) <= 10000000 && len(y.mant) <= 10000000
 //@   modifies z.acc, z.exp, z.form, z.mant, memcap(z.mant)
 //@   ensures[form,C08] (z.form == finite || z.form == zero || z.form == inf) && 0 - 1 <= z.acc && z.acc <= 1
+//@   ensures[inrange,C03] MinExp + 18 <= old(x.exp) + old(y.exp) && old(x.exp) + old(y.exp) <= MaxExp - 1 && 19*(old(len(x.mant)) + old(len(y.mant))) <= z.prec ==> z.form == finite
+//@   ensures[exprange,C03] z.form == finite ==> old(x.exp) + old(y.exp) - 18 <= z.exp && z.exp <= old(x.exp) + old(y.exp) + 1
 //@   ensures[len,C08] len(z.mant) <= old(len(x.mant)) + old(len(y.mant))
 //@   ensures[underflow,C02,C04] z.form == zero ==> z.acc != 0
 //@   ensures[shape,C08] z.form == finite ==> mantok(z) && 19*len(z.mant) < z.prec + 19 && (19*len(z.mant) > z.prec ==> z.mant[0] % p10(19*len(z.mant) - z.prec) == 0)
@@ -261,6 +277,7 @@ package decimal
 //@   ensures[valid,C08] valid(z)
 
 //@ func (z *Decimal) Set(x *Decimal) *Decimal
+//@   nomerge
 //@   requires[wf] z != nil && opnd(x) && sep(z, x) && z.mode <= 5 && len(x.mant) <= 100000000
 //@   modifies z.prec, z.acc, z.form, z.neg, z.exp, z.mant, memcap(z.mant)
 //@   ensures[result] result == z
@@ -338,7 +355,7 @@ package decimal
 // ---------------------------------------------------------------------------
 // Arithmetic
 
-//@ define addop_wf(z, x, y) = z != nil && opnd_long(x) && opnd(y) && (x.form == finite && y.form == zero ==> valid(x)) && sep(z, x) && sep(z, y) && z.mode <= 5 && z.prec <= 1000000000 && x.prec <= 1000000000 && y.prec <= 1000000000 && len(x.mant) <= 20000000 && len(y.mant) <= 10000000
+//@ define addop_wf(z, x, y) = z != nil && opnd_long(x) && opnd(y) && (x.form == finite && y.form == zero ==> valid(x)) && sep(z, x) && sep(z, y) && z.mode <= 5 && z.prec <= 1000000000 && x.prec <= 1000000000 && y.prec <= 1000000000 && (x.form == finite ==> len(x.mant) <= 20000000) && (y.form == finite ==> len(y.mant) <= 10000000)
 //@ define binop_wf(z, x, y) = z != nil && opnd(x) && opnd(y) && sep(z, x) && sep(z, y) && z.mode <= 5 && z.prec <= 1000000000 && x.prec <= 1000000000 && y.prec <= 1000000000 && len(x.mant) <= 10000000 && len(y.mant) <= 10000000
 //@ define newprec2(z, x, y) = old(z.prec) == 0 ? max(old(x.prec), old(y.prec)) : old(z.prec)
 //@ define buffer_ok(z) = (z.mant.arr == old(z.mant.arr) && z.mant.off == old(z.mant.off) && cap(z.mant) == old(cap(z.mant))) || fresh(z.mant)
@@ -421,10 +438,10 @@ package decimal
 //@   requires[wf] z != nil && opnd(x) && opnd(y) && opnd(u) && sep(z, x) && sep(z, y) && sep(z, u) && z.mode <= 5 &&
 //@        z.prec <= 1000000000 && x.prec <= 1000000000 && y.prec <= 1000000000 && u.prec <= 1000000000 &&
 //@        len(x.mant) <= 10000000 && len(y.mant) <= 10000000 && len(u.mant) <= 10000000
+//@   requires[prodrange] x.form == finite && y.form == finite ==> MinExp + 18 <= x.exp + y.exp && x.exp + y.exp <= MaxExp - 1
 //@   requires[range] x.form == finite && y.form == finite && u.form == finite ==>
-//@        MinExp <= x.exp + y.exp - 1 && x.exp + y.exp <= MaxExp &&
-//@        (x.exp + y.exp - 19*len(x.mant) - 19*len(y.mant)) - (u.exp - 19*len(u.mant)) <= 999999000 &&
-//@        (u.exp - 19*len(u.mant)) - (x.exp + y.exp - 19*len(x.mant) - 19*len(y.mant)) <= 999999000
+//@        (x.exp + y.exp - 19*len(x.mant) - 19*len(y.mant)) - (u.exp - 19*len(u.mant)) <= 500000000 &&
+//@        (u.exp - 19*len(u.mant)) - (x.exp + y.exp - 19*len(x.mant) - 19*len(y.mant)) <= 500000000
 //@   modifies z.prec, z.acc, z.form, z.neg, z.exp, z.mant, memcap(z.mant)
 //@   ensures[result] result == z
 //@   ensures[prec,C09] z.prec == (old(z.prec) == 0 ? max(max(old(x.prec), old(y.prec)), old(u.prec)) : old(z.prec))
